@@ -68,3 +68,16 @@ func installAtomicStubs(t *StubTable) {
 	}
 	t.Native["sync.fatal"] = t.Native["sync.throw"]
 }
+
+// strings.Builder avoids copies through unsafe; model the three unsafe spots.
+func installStringsStubs(t *StubTable) {
+	t.Native["(*strings.Builder).copyCheck"] = func(i *interpreter, caller *frame, fn *ssa.Function, args []value) value { return nil }
+	t.Native["(*strings.Builder).Grow"] = func(i *interpreter, caller *frame, fn *ssa.Function, args []value) value { return nil }
+	t.Native["(*strings.Builder).grow"] = func(i *interpreter, caller *frame, fn *ssa.Function, args []value) value { return nil }
+	t.Native["(*strings.Builder).String"] = func(i *interpreter, caller *frame, fn *ssa.Function, args []value) value {
+		b := (*args[0].(*value)).(structure)
+		// struct { addr *Builder; buf []byte }
+		buf, _ := b[1].([]value)
+		return stringOf(buf)
+	}
+}
